@@ -816,14 +816,14 @@ JOBS = {"C11.ieee_probes": _ieee_probes}
 
 def _native_rejections(tier="quick", seed=0):
     """BOUNDED: the object-model setters with values outside their documented domain (the out-of-domain leg of the C09 sweep): each is
-    refused with TypeError / ValueError and nothing has changed"""
+    refused with TypeError / ValueError and nothing has changed; and the read-back leg: reading the written form returns the value"""
     from contracts import c09
 
     r = c09._native_setget_sweep(tier=tier, seed=seed)
     keep = []
     for o in r["obligations"]:
         nm = o["name"]
-        if "out-of-domain" in nm or "refusal" in nm or "refused" in nm:
+        if "out-of-domain" in nm or "refusal" in nm or "refused" in nm or "reads-back-differently" in nm or "reading-raises" in nm:
             o = dict(o, name=nm.replace("C09.", "C11."), base=o["base"].replace("C09.", "C11."))
             keep.append(o)
     ok = {"name": "C11.native.out_of_domain_values_refused_unchanged", "base": "C11.native.out_of_domain_values_refused_unchanged", "kind": "bounded",
